@@ -125,6 +125,14 @@ def assert_frame_cases() -> None:
 assert_frame_cases()
 
 
+class InconsistentSnapshot(AssertionError):
+    """A consistency check on what we read from a frame failed. These are
+    real checks, not debugging aids: when a frame that is running on another
+    thread moves on while we're looking at it, they are what tells us to
+    start over rather than follow a stale pointer. So they are raised
+    explicitly, and happen under ``python -O`` as well."""
+
+
 def inspect_frame(frame: FrameType) -> FrameDetails:
     assert sys.implementation.name == "cpython" and sys.version_info >= (3, 11)
 
@@ -205,19 +213,24 @@ def inspect_frame(frame: FrameType) -> FrameDetails:
             # therefore one atomic step.
             iframe_addr = f_frame_field.value
             iframe_raw = InterpreterFrame.from_address(iframe_addr)
-            assert f_frame_field.value == iframe_addr
+            if not (f_frame_field.value == iframe_addr):
+                raise InconsistentSnapshot
             raw_globals = iframe_raw.f_globals
             raw_builtins = iframe_raw.f_builtins
             raw_code = iframe_raw.f_code
             raw_frame_obj = iframe_raw.frame_obj
             stacktop_copy = iframe_raw.stacktop
             frame_owner = iframe_raw.owner  # one of the FRAME_OWNED_BY_* constants
-            assert raw_globals == id(frame.f_globals)
-            assert raw_builtins == id(frame.f_builtins)
-            assert raw_code == id(frame.f_code)
+            if not (raw_globals == id(frame.f_globals)):
+                raise InconsistentSnapshot
+            if not (raw_builtins == id(frame.f_builtins)):
+                raise InconsistentSnapshot
+            if not (raw_code == id(frame.f_code)):
+                raise InconsistentSnapshot
             # frame_obj is null if this iframe is owned by the frame object (thus
             # physically contained within it), to avoid a circular reference
-            assert raw_frame_obj in (0, id(frame))
+            if not (raw_frame_obj in (0, id(frame))):
+                raise InconsistentSnapshot
 
             # Figure out what portion of the stack is actually valid
             if stacktop_copy == -1:
@@ -228,15 +241,18 @@ def inspect_frame(frame: FrameType) -> FrameDetails:
                 stack_top_offset = stack_start_offset + wordsize * handler_depth
             else:
                 stack_top_offset = localsplus_offset + wordsize * stacktop_copy
-                assert stack_start_offset <= stack_top_offset <= end_offset
+                if not (stack_start_offset <= stack_top_offset <= end_offset):
+                    raise InconsistentSnapshot
 
             stack_len = (stack_top_offset - stack_start_offset) // wordsize
             stack_ptr = (ctypes.py_object * stack_len).from_address(
                 iframe_addr + stack_start_offset
             )
             _verif_hook("inspect_frame:pre_stack", frame)
-            assert f_frame_field.value == iframe_addr
-            assert frame.f_lasti == lasti_before
+            if not (f_frame_field.value == iframe_addr):
+                raise InconsistentSnapshot
+            if not (frame.f_lasti == lasti_before):
+                raise InconsistentSnapshot
 
             # Extract object pointers for it. This is by far the most
             # delicate part of our routine if the frame is executing
@@ -260,8 +276,10 @@ def inspect_frame(frame: FrameType) -> FrameDetails:
                     # That the frame remains pinned on the thread stack if
                     # it was before is checked separately (see above); no
                     # call may come between these checks and the read.
-                    assert f_frame_field.value == iframe_addr
-                    assert frame.f_lasti == lasti_before
+                    if not (f_frame_field.value == iframe_addr):
+                        raise InconsistentSnapshot
+                    if not (frame.f_lasti == lasti_before):
+                        raise InconsistentSnapshot
 
                     try:
                         # Read the PyObject* from memory and take a reference to it,
@@ -275,8 +293,10 @@ def inspect_frame(frame: FrameType) -> FrameDetails:
                     details.stack.append(obj)
 
             _verif_hook("inspect_frame:post_stack", frame)
-            assert f_frame_field.value == iframe_addr
-            assert frame.f_lasti == lasti_before
+            if not (f_frame_field.value == iframe_addr):
+                raise InconsistentSnapshot
+            if not (frame.f_lasti == lasti_before):
+                raise InconsistentSnapshot
 
         except AssertionError:
             if frame.f_lasti == lasti_before and f_frame_field.value == iframe_addr:
